@@ -10,6 +10,8 @@ N(c) == Len(c.sma)
 PaDiff(a, b) == LET d == (a - b) % 51472 IN IF d > 25736 THEN 51472 - d ELSE d          \* pi * 16384 = 51472
 Clause(c) ==
   IF c.kind = "polar" THEN (IF c.maxdev > 2 THEN "scalar_and_array_polar_transform_agree" ELSE "ok")
+  \* the same image in other flux units (exact power-of-two factor): same list, same geometry, intensities scaled (deviation in 1e-6)
+  ELSE IF c.kind = "scale" THEN (IF c.maxdev > 2 THEN "geometry_independent_of_the_flux_unit" ELSE "ok")
   ELSE IF c.raised THEN "fit_raises"
   \* eps = 0.8 at these sizes is barely sampled: an empty result is accepted there (nothing is claimed about it)
   ELSE IF N(c) = 0 THEN (IF c.demand_fit THEN "no_isophote_fitted" ELSE "ok")
